@@ -192,13 +192,29 @@ func HarnessC09DecoratorsRunHandlers() {
 	r.isRunning = true
 	var mu sync.Mutex
 	var pubSeen, subSeen []int
+	// one of the publisher decorators may fail the first time it is applied (a transient fault): RunHandlers then
+	// reports the error and is simply called again
+	failingAt := vrt.Int("publisher.decorator.failing.once", -1, 1)
+	vrt.Assume(failingAt < np)
+	failedOnce := false
 	for i := 0; i < np; i++ {
 		i := i
-		r.AddPublisherDecorators(MessageTransformPublisherDecorator(func(m *Message) {
+		dec := MessageTransformPublisherDecorator(func(m *Message) {
 			mu.Lock()
 			pubSeen = append(pubSeen, i)
 			mu.Unlock()
-		}))
+		})
+		if i == failingAt {
+			r.AddPublisherDecorators(func(p Publisher) (Publisher, error) {
+				if !failedOnce {
+					failedOnce = true
+					return nil, errScripted
+				}
+				return dec(p)
+			})
+		} else {
+			r.AddPublisherDecorators(dec)
+		}
 	}
 	for i := 0; i < ns; i++ {
 		i := i
@@ -213,7 +229,11 @@ func HarnessC09DecoratorsRunHandlers() {
 	ctx, cancel := context.WithCancel(context.Background())
 	defer cancel()
 	r.AddHandler("A", "ta", subA, "out", pub, PassthroughHandler)
-	vrt.Assert(r.RunHandlers(ctx) == nil, "first RunHandlers")
+	if failingAt >= 0 {
+		vrt.Assert(r.RunHandlers(ctx) != nil, "RunHandlers reports the decorator's error")
+		vrt.Assert(subA.subscribes == 0, "and has not subscribed the handler")
+	}
+	vrt.Assert(r.RunHandlers(ctx) == nil, "first (successful) RunHandlers")
 	r.AddHandler("B", "tb", subB, "out", pub, PassthroughHandler)
 	vrt.Assert(r.RunHandlers(ctx) == nil, "second RunHandlers starts the late handler")
 	vrt.Assert(r.RunHandlers(ctx) == nil, "a further RunHandlers changes nothing")
